@@ -77,7 +77,7 @@ KeySet ==
     [] KeySetName = "coll"  -> {<<100, 47, 120>>, <<100, 95, 120>>, <<100, 92, 120>>}            \* d/x, d_x, d\x
     [] KeySetName = "list"  -> {<<97>>, <<97, 47, 49>>, <<97, 45, 98>>, <<98>>} \* a, a/1, a-b, b
 
-Cfg ==
+CfgBase ==
   CASE CfgName = "mem"      -> [DefaultCfg EXCEPT !.suspDelete = "code", !.suspNone = "None", !.oldNull = "keep"]
     [] CfgName = "memenabled" -> [DefaultCfg EXCEPT !.suspDelete = "code", !.suspNone = "None", !.oldNull = "keep"]
     [] CfgName = "memauto"  -> [DefaultCfg EXCEPT !.auto = TRUE, !.suspDelete = "code", !.suspNone = "None", !.oldNull = "keep"]
@@ -86,6 +86,7 @@ Cfg ==
     [] CfgName = "plainauto" -> [DefaultCfg EXCEPT !.versioned = FALSE, !.paginate = FALSE, !.auto = TRUE]
     [] CfgName = "single"   -> [DefaultCfg EXCEPT !.versioned = FALSE, !.paginate = FALSE, !.single = "bkt1"]
     [] CfgName = "set"      -> DefaultCfg
+Cfg == [CfgBase EXCEPT !.bad = BadBuckets]
 
 Init0 == IF Cfg.single # "" THEN [InitState EXCEPT !.bk = Upd(<<>>, Cfg.single, NewBucket)] ELSE InitState
 \* "memenabled": histories start with the bucket created and versioning enabled
